@@ -29,7 +29,7 @@ pub fn def() -> CheckDef {
 const APIS: [&str; 5] = ["get_immutable", "get_mutable", "get_mutable(salt)", "get_mutable_most_recent(salt)", "get_signed_peers"];
 
 fn info(tier: Tier) -> CheckInfo {
-    CheckInfo {
+    let mut ci = CheckInfo {
         id: "C02",
         level: "model_checking",
         rule: format!(
@@ -38,7 +38,9 @@ fn info(tier: Tier) -> CheckInfo {
             3
         ),
         assumptions: vec!["trusted base of the oracle: sha1_smol and ed25519-dalek signature verification".into(), "forgery classes, not all byte strings".into()],
-    }
+    };
+    ci.rule.push_str(" Added: signed-peer lists of 16 records with the forged one last; the node's own put of every kind in flight; lookups also through the blocking Dht API.");
+    ci
 }
 
 const MENU: usize = 8;
